@@ -74,7 +74,12 @@ def impl_pair(a, b, ser):
 
 def check_tree(ctx, out, spec, tag, tree=None, typed=False):
     if tree is None:
-        tree = adapter.build(spec, ctx.pool, typed=typed)
+        if typed:
+            from props.c15 import long_kinds     # multi-character kinds, one of them a superstring of another
+
+            tree = adapter.build(long_kinds(spec), ctx.pool, typed=True)
+        else:
+            tree = adapter.build(spec, ctx.pool, typed=typed)
     ser = adapter.Serials()
     ser.by_obj[id(tree.system_root)] = 0
     ser.keep.append(tree.system_root)
@@ -221,7 +226,7 @@ def run(ctx):
         n = ctx.rng.randrange(6, 16)
         shape = gen.random_shape(ctx.rng, n)
         cnt = itertools.count()
-        spec = gen.label_forest(shape, ({"a": ctx.rng.choice([0, 1, 2, 18, 19, 24, 25, 12]), "k": ctx.rng.choice("ab"), "did": 9000 + next(cnt)} for _ in range(n)))
+        spec = gen.label_forest(shape, ({"a": ctx.rng.choice([0, 1, 2, 18, 19, 24, 25, 12]), "k": ctx.rng.choice("abc"), "did": 9000 + next(cnt)} for _ in range(n)))
         check_tree(ctx, out, spec, "typed-rnd", typed=True)
         out.dist["typed_tree"] += 1
     # trees REACHED through mutation histories (add / shortcuts / copies / moves / removals with keep_children / sort / set_data):
